@@ -429,6 +429,10 @@ func vfC16Established(t *testing.T, res *vfResult, c vfC16Case) {
 				res.Seen("x_read_results", c.Action+": "+vfErrNorm(call.Err))
 			case strings.HasPrefix(call.Name, "X.Write"):
 				res.Seen("x_parked_write_results", c.Action+": "+vfErrNorm(call.Err))
+				if call.At > blockedFrom+time.Second {
+					// Close interrupts a Write that is parked in the transport (the socket is released only after 3 s)
+					violate("close-did-not-interrupt-parked-write", fmt.Sprintf("%s returned at +%v, i.e. only when the socket accepted datagrams again, not when Close was called", call.Name, call.At-blockedFrom))
+				}
 			case call.Name == "Y.Read":
 				res.Seen("y_read_results", c.Action+": "+vfErrNorm(call.Err))
 			}
@@ -651,7 +655,7 @@ func vfC16Cases() []vfC16Case {
 	add := func(c vfC16Case) { c.Idx = idx; idx++; out = append(out, c) }
 	for _, v := range []string{"12-ecdsa", "12-cid", "12-psk-cbc", "13", "13-cid"} {
 		for _, actor := range []string{"c", "s"} {
-			for _, a := range []string{"close-1", "close-3", "close-3-write-blocked", "close-then-close", "both-close", "fatal-alert-injected",
+			for _, a := range []string{"close-1", "close-3", "close-then-close", "both-close", "fatal-alert-injected",
 				"close-notify-injected", "read-deadline", "write-deadline-blocked", "close-with-accessors"} {
 				add(vfC16Case{Variant: v, Phase: "established", Actor: actor, Action: a})
 			}
@@ -815,6 +819,75 @@ func vfC16Stress(res *vfResult, iter int) {
 	res.NonTrivial(fmt.Sprintf("stress/%d", iter))
 }
 
+// vfC16ParkedWrite: a Write parked in the transport when Close is called (real time: a goroutine blocked on the
+// connection's write lock would freeze a synctest bubble's clock, so a missing interruption could not be told
+// from a harness artefact there).
+func vfC16ParkedWrite(res *vfResult, iter int) {
+	variants := []string{"12-ecdsa", "12-cid", "13", "13-cid", "12-psk-cbc"}
+	cfg := vfC16Cfg(variants[iter%len(variants)])
+	co, so := cfg.Options(nil, nil)
+	n := vfNewNet()
+	p, err := vfNewPair(n, co, so)
+	res.Eval(1)
+	if err != nil {
+		return
+	}
+	if ce, se := p.Handshake(20 * time.Second); ce != nil || se != nil {
+		res.Count("parked_write_handshake_failed", 1)
+		p.Close()
+
+		return
+	}
+	x := p.C
+	if iter%2 == 1 {
+		x = p.S
+	}
+	time.Sleep(50 * time.Millisecond) // DTLS 1.3: tickets and ACKs are out
+	blk := make(chan struct{})
+	x.EP.mu.Lock()
+	x.EP.blockWrites = blk
+	x.EP.mu.Unlock()
+	type ret struct {
+		err error
+		at  time.Duration
+	}
+	t0 := time.Now()
+	wr := make(chan ret, 1)
+	cl := make(chan ret, 1)
+	go func() { _, err := x.Conn.Write([]byte("parked")); wr <- ret{err, time.Since(t0)} }()
+	time.Sleep(100 * time.Millisecond)
+	go func() { err := x.Conn.Close(); cl <- ret{err, time.Since(t0)} }()
+	const release = 1500 * time.Millisecond
+	var w ret
+	interrupted := false
+	select {
+	case w = <-wr:
+		interrupted = true
+	case <-time.After(release - 100*time.Millisecond):
+	}
+	close(blk) // the transport accepts datagrams again
+	if !interrupted {
+		select {
+		case w = <-wr:
+		case <-time.After(20 * time.Second):
+			res.Violate("C16:parked-write-never-returned", "a Write parked in the transport did not return within 20 s of Close and of the transport's release; "+cfg.FP(), map[string]any{"iter": iter, "parked": true})
+		}
+		res.Violate("C16:close-did-not-interrupt-parked-write", fmt.Sprintf("a Write parked in the transport returned (%v) only once the transport accepted datagrams again (+%v), not when Close was called at +100ms; %s",
+			w.err, w.at, cfg.FP()), map[string]any{"iter": iter, "parked": true})
+	} else if w.err == nil {
+		res.Count("parked_write_returned_nil", 1)
+	}
+	select {
+	case <-cl:
+	case <-time.After(20 * time.Second):
+		res.Violate("C16:close-did-not-return:parked-write", "Close did not return within 20 s although the transport was released; "+cfg.FP(), map[string]any{"iter": iter, "parked": true})
+	}
+	res.Count("parked_writes_checked", 1)
+	res.Seen("x_parked_write_results", vfErrNorm(w.err))
+	res.NonTrivial(fmt.Sprintf("parked/%d", iter))
+	p.Close()
+}
+
 func TestVF_C16(t *testing.T) {
 	vfGetPKI()
 	res := vfNewResult("C16", "Close (1-3 concurrent callers, repeated, with a Write parked in the socket), forged fatal alerts and close_notify, "+
@@ -827,13 +900,16 @@ func TestVF_C16(t *testing.T) {
 	if vfEnv().Replay != "" {
 		var rf struct {
 			Replay struct {
-				Case vfC16Case `json:"case"`
-				Iter *int      `json:"iter"`
+				Case   vfC16Case `json:"case"`
+				Iter   *int      `json:"iter"`
+				Parked bool      `json:"parked"`
 			} `json:"replay"`
 		}
 		vfLoadReplay(t, &rf)
 		vfDumpWire = true
-		if rf.Replay.Iter != nil {
+		if rf.Replay.Iter != nil && rf.Replay.Parked {
+			vfC16ParkedWrite(res, *rf.Replay.Iter)
+		} else if rf.Replay.Iter != nil {
 			vfC16Stress(res, *rf.Replay.Iter)
 		} else {
 			synctest.Test(t, func(t *testing.T) { vfC16Run(t, res, rf.Replay.Case) })
@@ -846,6 +922,7 @@ func TestVF_C16(t *testing.T) {
 	}
 	cases := vfC16Cases()
 	vfBubbles(t, len(cases), func(t *testing.T, i int) { vfC16Run(t, res, cases[i]) })
+	vfParallel(vfPick(10, 100), func(_, i int) { vfC16ParkedWrite(res, i) })
 	ns := vfPick(150, 3000)
 	vfParallel(ns, func(_, i int) { vfC16Stress(res, i) })
 	res.Sample(map[string]any{"placements": len(cases), "stress_iterations": ns, "x_read_results": res.SetSize("x_read_results")})
@@ -853,6 +930,7 @@ func TestVF_C16(t *testing.T) {
 	res.Floor("close_notify_accounted", 20)
 	res.Floor("alerts_decoded", 20)
 	res.Floor("stress_iterations", int64(ns*8/10))
+	res.Floor("parked_writes_checked", 8)
 	res.Finish(t)
 }
 
